@@ -5,9 +5,9 @@
 package pfcpiface
 
 import (
-	"os"
 	"encoding/json"
 	"fmt"
+	"os"
 	"testing"
 
 	"github.com/wmnsk/go-pfcp/ie"
